@@ -247,7 +247,7 @@ func c13Refs(c *Ctx, r *Report, rr *ssa.Function) {
 		}
 		r.check("C13.REFS", fmt.Sprintf("%s: an undefined name fails the replacement", fnName(fn)), fn.Pos(), nStores > 0 && nStores == nChecked, fmt.Sprintf("%d of %d replacements return an error when the lookup yields nil", nChecked, nStores))
 	}
-	r.floor("C13.REFS", "functions performing reference replacement", len(fl), 7)
+	r.floor("C13.REFS", "functions performing reference replacement", len(fl), 1) // how the positions are shared out between functions is free; the positions themselves are enumerated above
 	c13RefsEveryIter(c, r, rr)
 }
 
